@@ -341,7 +341,9 @@ class Agent:
             if not reportable:
                 self.counters["unknown_engine"] += 1
                 return None
-            return self._report(msg, "unknown_engine", request_id=req_id)
+            # the report echoes the user name of the request (RFC 3412 7.1 (3):
+            # built from the security state of the incoming message)
+            return self._report(msg, "unknown_engine", user=usm["user"], request_id=req_id)
         user = self.users.get(usm["user"])
         if user is None:
             rec["verdict"] = "unknown_user"
